@@ -156,6 +156,7 @@ func genHistory(r *rand.Rand, tier string, o histOpts) *World {
 		cfg.SkewSec = pick(r, 0, 0, 1, -1, 2)
 		cfg.KubeletSkewSec = pick(r, 0, 0, 1, -2)
 	}
+	cfg.StrategyEdits = o.c02 && chance(r, 0.3)
 	cfg.QuiesceRounds = 4
 	if o.c02 {
 		w.Extra["c02"] = "1"
